@@ -7,6 +7,7 @@ Cases:
 Oracle: the harness' own 6-tuple affine algebra (gen.mat_mul / mat_apply / mat_inv) and elementary matrices
         written from SVG 1.1 7.6 / CSS Transforms 1.
 """
+import copy as _copy
 import math
 from fractions import Fraction
 
@@ -431,6 +432,15 @@ def cond(m):
     return max(1.0, fro / max(det, 1e-300))
 
 
+def _inplace(a, b, how):
+    m = _copy.copy(a)
+    if how == "mul":
+        m *= b
+    else:
+        m @= b
+    return m
+
+
 def check_algebra(case):
     se = lib.L()
     o = core.Obs()
@@ -466,6 +476,28 @@ def check_algebra(case):
     I = se.Matrix()
     if not mclose(mtuple(mA * I), A, 1e-12 * nA) or not mclose(mtuple(I * mA), A, 1e-12 * nA):
         return o.violation("identity-neutral", "A*I or I*A differs from A = %r" % (A,))
+    # the other spellings of the product: @, the in-place forms, a string operand
+    for what, got in (("A @ B", mA @ mB), ("A *= B", _inplace(mA, mB, "mul")), ("A @= B", _inplace(mA, mB, "matmul")),
+                      ("A * 'matrix(..)'", mA * ("matrix(%r,%r,%r,%r,%r,%r)" % B))):
+        if not mclose(mtuple(got), gen.mat_mul(A, B), 1e-9 * nA * nB):
+            return o.violation("matrix-product:%s" % what.split()[1], "%s = %r, expected %r" % (what, mtuple(got), gen.mat_mul(A, B)))
+    if mtuple(mA) != sA or mtuple(mB) != sB:
+        return o.violation("operand-modified:@", "a product form changed an operand")
+    # elementary constructors = the elementary matrices the pre_/post_ operations multiply by
+    for op, args in [(o_[1], o_[2]) for o_ in case["ops"]]:
+        ctor = {"translate": lambda a: se.Matrix.translate(a[0], a[1]), "translate_x": lambda a: se.Matrix.translate_x(a[0]), "translate_y": lambda a: se.Matrix.translate_y(a[0]),
+                "scale": lambda a: se.Matrix.scale(a[0], a[1]), "scale_x": lambda a: se.Matrix.scale_x(a[0]), "scale_y": lambda a: se.Matrix.scale_y(a[0]),
+                "rotate": lambda a: se.Matrix.rotate(math.radians(a[0])), "skew": lambda a: se.Matrix.skew(math.radians(a[0]), math.radians(a[1])),
+                "skew_x": lambda a: se.Matrix.skew_x(math.radians(a[0])), "skew_y": lambda a: se.Matrix.skew_y(math.radians(a[0]))}.get(op)
+        if ctor is None:
+            continue
+        o.label("ctor:%s" % op)
+        E = tuple(float(v) for v in op_matrix(op, args))
+        got = mtuple(ctor(args))
+        if not mclose(got, E, 1e-9 * (gen.mat_norm(E) + abs(E[4]) + abs(E[5]) + 1.0)):
+            return o.violation("constructor:%s" % op, "Matrix.%s%r = %r, the elementary matrix is %r" % (op, tuple(args), got, E))
+    if mtuple(se.Matrix.identity()) != tuple(gen.IDENTITY) or mtuple(se.Matrix.scale(args_s := 3.0)) != (3.0, 0.0, 0.0, 3.0, 0.0, 0.0):
+        return o.violation("constructor:identity-or-uniform-scale", "Matrix.identity() = %r, Matrix.scale(3) = %r" % (mtuple(se.Matrix.identity()), mtuple(se.Matrix.scale(3.0))))
     # pre_/post_ operations
     m = lib.mk_matrix(A)
     ref = A
